@@ -1,5 +1,6 @@
 import CTV.Model.X509Wrap
 import CTV.Lemmas.DerSlices
+import CTV.Lemmas.X509Concat
 /-!
 # C11 — The lenient X.509 parser is total, error-coherent and exact on well-formed input
 
@@ -116,6 +117,50 @@ example : ¬ Coherent (mergeInner ⟨false, .nonFatalErrors 1⟩ 0) := by decide
 example : parseCertificateListDER Dialect.upstream (fun _ => ([false, true], false)) [0x30, 0x00] = ⟨false, .errorsPtr [true]⟩ := by rfl
 
 
+-- non-vacuity: a minimal certificate envelope (issuer = SEQUENCE { SET {} }, subject = empty SEQUENCE)
+def sampleCert : Bytes := [0x30, 0x47, 0x30, 0x3b, 0x02, 0x01, 0x01, 0x30, 0x04, 0x06, 0x02, 0x2a, 0x03, 0x30, 0x02, 0x31, 0x00, 0x30, 0x1e, 0x17, 0x0d, 0x32, 0x34, 0x30, 0x31, 0x30, 0x31, 0x30, 0x30, 0x30, 0x30, 0x30, 0x30, 0x5a, 0x17, 0x0d, 0x32, 0x35, 0x30, 0x31, 0x30, 0x31, 0x30, 0x30, 0x30, 0x30, 0x30, 0x30, 0x5a, 0x30, 0x00, 0x30, 0x0a, 0x30, 0x04, 0x06, 0x02, 0x2a, 0x03, 0x03, 0x02, 0x00, 0x01, 0x30, 0x04, 0x06, 0x02, 0x2a, 0x03, 0x03, 0x02, 0x00, 0x01]
+
+/-- a minimal certificate envelope whose serial number is the non-minimal INTEGER `02 02 00 01` -/
+def sampleLaxCert : Bytes := [0x30, 0x48, 0x30, 0x3c, 0x02, 0x02, 0x00, 0x01, 0x30, 0x04, 0x06, 0x02, 0x2a, 0x03, 0x30, 0x02, 0x31, 0x00, 0x30, 0x1e, 0x17, 0x0d, 0x32, 0x34, 0x30, 0x31, 0x30, 0x31, 0x30, 0x30, 0x30, 0x30, 0x30, 0x30, 0x5a, 0x17, 0x0d, 0x32, 0x35, 0x30, 0x31, 0x30, 0x31, 0x30, 0x30, 0x30, 0x30, 0x30, 0x30, 0x5a, 0x30, 0x00, 0x30, 0x0a, 0x30, 0x04, 0x06, 0x02, 0x2a, 0x03, 0x03, 0x02, 0x00, 0x01, 0x30, 0x04, 0x06, 0x02, 0x2a, 0x03, 0x03, 0x02, 0x00, 0x01]
+
+/-! ## concatenation law -/
+
+/-- **concat_law.** With the retry of `ParseCertificates` repaired (`keepsInput = true`, see F7): for certificates
+`c₁ … cₙ` each of which the envelope decoder accepts on its own (strictly or via lax) using up all of `cᵢ`,
+parsing `c₁ ‖ … ‖ cₙ` gives, certificate by certificate and in order, exactly the outcome of `ParseCertificate cᵢ`:
+the non-fatal errors add up, and the first fatal one makes the whole call fatal with that error (`innerAllR`
+applied to the individual results is this combination). Holds for every payload function `inner`. -/
+theorem concat_law (d : Dialect) (inner : AVal → Ret) (cs : List Bytes)
+    (hcs : ∀ c ∈ cs, ∃ v l, strictThenLax d Gen.ty_certificate c = some (v, [], l)) :
+    parseCertificates d true inner (concatAllB cs) = innerAllR (cs.map (parseCertificate d inner)) 0 := by
+  unfold parseCertificates
+  rw [splitCertificates_concat d cs _ hcs (Nat.lt_succ_self _)]
+  simp only [innerAll]
+  -- each ParseCertificate cᵢ is `mergeInner (inner vᵢ) (lax? 1 : 0)`
+  have hpc : ∀ c ∈ cs, parseCertificate d inner c = mergeInner (inner (certVal d c).1) (if (certVal d c).2 then 1 else 0) := by
+    intro c hc
+    obtain ⟨v, l, h⟩ := hcs c hc
+    unfold parseCertificate certVal
+    rw [h]
+    simp
+  have e1 : cs.map (parseCertificate d inner) = (cs.map (certVal d)).map (fun x => mergeInner (inner x.1) (if x.2 then 1 else 0)) := by
+    rw [List.map_map]
+    exact List.map_congr_left hpc
+  have e2 : (cs.map fun c => (certVal d c).1).map inner = (cs.map (certVal d)).map (fun x => inner x.1) := by
+    simp [List.map_map, Function.comp_def]
+  have e3 := countLax_eq d cs
+  rw [e1, e2, e3, innerAllR_merge inner _ 0, Nat.zero_add]
+
+/-- **The law fails on the snapshot (F7).** With the unrepaired retry (`keepsInput = false`) a single certificate
+that needs the lax fallback makes `ParseCertificates` fatal although `ParseCertificate` returns it with one
+non-fatal error. (A certificate whose serial number is the non-minimal INTEGER `02 02 00 01`.) -/
+theorem concat_law_fails_unrepaired :
+    let inner : AVal → Ret := fun _ => ⟨true, .nil⟩
+    parseCertificate Dialect.upstream inner sampleLaxCert = ⟨true, .nonFatalErrors 1⟩ ∧
+    parseCertificates Dialect.upstream false inner sampleLaxCert = ⟨false, .plain⟩ ∧
+    parseCertificates Dialect.upstream true inner sampleLaxCert = ⟨true, .nonFatalErrors 1⟩ := by
+  refine ⟨by rfl, by rfl, by rfl⟩
+
 /-! ## raw fields are the exact sub-slices of the input -/
 
 /-- `full` is the element that `readTLV` finds at some offset of `whole` -/
@@ -163,10 +208,26 @@ theorem raw_slices (d : Dialect) (m : Mode) (bs : Bytes) (cert : AVal) (rest : B
   · have : tvs.getD 6 (.bool false) = v6 := by simp [List.getD, hv6]
     simp only [rawFields, structField, structRaw, AVal.unwrap, List.getD_cons_zero, this, hv6eq, if_true]
 
--- non-vacuity: a minimal certificate envelope (issuer = SEQUENCE { SET {} }, subject = empty SEQUENCE)
-def sampleCert : Bytes := [0x30, 0x47, 0x30, 0x3b, 0x02, 0x01, 0x01, 0x30, 0x04, 0x06, 0x02, 0x2a, 0x03, 0x30, 0x02, 0x31, 0x00, 0x30, 0x1e, 0x17, 0x0d, 0x32, 0x34, 0x30, 0x31, 0x30, 0x31, 0x30, 0x30, 0x30, 0x30, 0x30, 0x30, 0x5a, 0x17, 0x0d, 0x32, 0x35, 0x30, 0x31, 0x30, 0x31, 0x30, 0x30, 0x30, 0x30, 0x30, 0x30, 0x5a, 0x30, 0x00, 0x30, 0x0a, 0x30, 0x04, 0x06, 0x02, 0x2a, 0x03, 0x03, 0x02, 0x00, 0x01, 0x30, 0x04, 0x06, 0x02, 0x2a, 0x03, 0x03, 0x02, 0x00, 0x01]
 example : (match parseField Dialect.upstream .strict Gen.ty_certificate {} (sampleCert ++ [0xAA]) with
     | .ok (c, rest) => some ((rawFields c).issuer, (rawFields c).subject, (rawFields c).tbs.length, (rawFields c).raw.length, rest)
     | .error _ => none) = some ([0x30, 0x02, 0x31, 0x00], [0x30, 0x00], 61, 73, [0xAA]) := by rfl
+
+/-! ## envelope round trip -/
+
+/- FULL: envelope_roundtrip — for every envelope template `tmpl` (serial, algorithm identifiers, raw issuer / subject, validity,
+   SPKI, optional unique ids, extension list): `parseCertificate d inner (encodeCert tmpl) = (tmpl, none)`, i.e.
+     marshalField d Gen.ty_certificate {} tmpl = .ok bs → parseField d .strict Gen.ty_certificate {} bs = .ok (tmpl, []).
+   Not proved: it is the `parse ∘ marshal` direction of the DER library, which needs the header round trip
+   (`parseTagLen (encTagLen tl ++ r) = (tl, r)`, long-form lengths) for arbitrary content sizes. What is checked instead:
+   the instance below by evaluation, and on every run that certificates issued by crypto/x509.CreateCertificate parse
+   with no error at all (harness part (b), 120 / 2 500 random templates). -/
+
+/-- envelope_roundtrip, one instance in both directions: the sample envelope decodes strictly with no remainder,
+re-encodes to the same octets, and the encoding of the decoded value decodes to a value with the same raw fields. -/
+theorem envelope_roundtrip_partial :
+    (match parseField Dialect.upstream .strict Gen.ty_certificate {} sampleCert with
+     | .ok (v, rest) => (marshalField Dialect.upstream Gen.ty_certificate {} v, rest)
+     | .error e => (.error e, [])) = (.ok sampleCert, []) ∧
+    parseCertificate Dialect.upstream (fun _ => ⟨true, .nil⟩) sampleCert = ⟨true, .nil⟩ := ⟨by rfl, by rfl⟩
 
 end C11
